@@ -77,3 +77,32 @@ def sig_F11b(suite, case, obs, clause):
 def sig_F11c(suite, case, obs, clause):
     """executing a plan that exceeds vmax / over-draws a column fails (consequence of F11a / F11b)"""
     return sig_F11a(suite, case, obs, clause) or sig_F11b(suite, case, obs, clause)
+
+
+def sig_F20(suite, case, obs, clause):
+    """distribute to destination wells that share one device position (the same well twice; on a Fluent several virtual
+    rows of one trough column): the R record dispenses once per position, the tracking once per named well, so a later
+    accepted call can take the replayed well below min_volume (or the source column above max_volume)."""
+    from harness.suites.progoracles import dev_pos, flatF
+
+    i = _call_index(clause)
+    m = re.search(r"replay takes (.+)\[(\d+)\] to (\S+) (below|above)", clause)
+    if i is None or not m or "ops" not in case:
+        return False
+    name, j, side = m.group(1), int(m.group(2)), m.group(4)
+    L = case["labware"]
+    for n, (op, st) in enumerate(zip(case["ops"][: i + 1], obs["steps"])):
+        if op["op"] != "distribute" or st.get("exc") is not None:
+            continue
+        dst = L[op["dst"]]
+        ws = flatF(op["dwells"])
+        pos = [dev_pos(case["dev"], dst, w) for w in ws]
+        dup = {p for p in pos if pos.count(p) > 1}
+        if not dup:
+            continue
+        real = lambda spec, w: (int(w[1:]) - 1) if spec["kind"] == "trough" else (ord(w[0]) - 65) * spec["cols"] + int(w[1:]) - 1
+        if side == "below" and dst["name"] == name and j in {real(dst, w) for w, p in zip(ws, pos) if p in dup}:
+            return True
+        if side == "above" and L[op["src"]]["name"] == name and j == op["col"]:
+            return True
+    return False
